@@ -825,6 +825,9 @@ func init() {
 			}
 			r.RequireMin("LOOP loops under the number functions", total, 18)
 			runRecursion(c, r, "REC", reach)
+			// every sub-picture is validated, whichever one renders the number
+			va := runVALIDALL(c, r, "VALIDALL")
+			r.RequireMin("VALIDALL success returns of the picture processor", va, 1)
 			e := newFIN(c, c.G)
 			// the functions bound to the number built-ins, whatever they are called
 			only := map[string]bool{}
@@ -1097,6 +1100,13 @@ func init() {
 			runLOCK(c, r, "LOCK")
 			runW(c, c.G, r, "W-register", pkgRegisterRootCfg(c))
 			runW(c, c.G, r, "W-exprregister", exprRegisterRootCfg(c))
+			// the call protocol of an extension
+			ho := runHORDER(c, r, "HORDER")
+			r.RequireMin("HORDER handler-order obligations", ho, 1)
+			cs := runCALLSEQ(c, r, "CALLSEQ")
+			r.RequireMin("CALLSEQ invocations of the Go function", cs, 1)
+			zr := runZERO(c, r, "ZERO", libFuncsIn(c, c.REval), c.REval)
+			r.RequireMin("ZERO reflect.Zero sites under Eval", zr, 1)
 			r.Assume(wAssume1)
 		},
 	})
